@@ -62,7 +62,9 @@ MATH_CMD_POOL = (('frac', 0, 2), ('sqrt', 1, 1), ('sqrt', 0, 1), ('mathbf', 0, 1
 MATH_DELIMS = {'dollar': ('$', '$'), 'ddollar': ('$$', '$$'), 'math': ('\\(', '\\)'),
                'displaymath': ('\\[', '\\]')}
 GROUP_DELIMS = {'brace': ('{', '}'), 'bracket': ('[', ']')}
-ESCAPES = ('\\%', '\\$', '\\{', '\\}', '\\&', '\\#', '\\_', '\\ ', '\\\\')
+ESCAPES = ('\\%', '\\$', '\\{', '\\}', '\\&', '\\#', '\\_', '\\ ', '\\\\',
+           # every category that makes an escaped symbol: superscript, active, other (punctuation, digits, non-ASCII)
+           '\\^', '\\~', '\\,', '\\;', '\\!', "\\'", '\\"', '\\.', '\\=', '\\-', '\\/', '\\@', '\\|', '\\1', '\\é', '\\*')
 
 # separators between a command and its arguments (C09)
 ATTACH = ('', ' ', '  ', '\t', ' \t ', '\n', ' \n', '\n ', ' \n\t', '\t\n  ')
@@ -1006,7 +1008,9 @@ def features(node):
 VERB_PIECES = ('{', '}', '[', ']', '$', '$$', '\\', '\\\\', '\\begin{itemize}', '\\end{itemize}', '\\begin{e}',
                '\\end{e}', '\\item', '%', '% c\n', '\n', '\n', ' ', '  ', 'a', 'x = 1;', '\\(', '\\]', '\\zq{a}',
                '\\begin{verbatim}', '\\end{verbatimx}', '\\end{', '\\end', '#', '&', '\\textbf', '(', '\t', '\\[',
-               'if (a[i] > 0) {', '\\begin{zq}', '\\end{zq}', '\\left(', '~', '^', '_')
+               'if (a[i] > 0) {', '\\begin{zq}', '\\end{zq}', '\\left(', '~', '^', '_',
+               # bare sizing prefixes (a sizing command fuses with a following delimiter - also with `\\l..`-style ones)
+               '\\left', '\\right', '\\big', '\\Bigg', '\\left\\l', '\\big\\')
 
 
 def near_miss_closers(name):
